@@ -273,7 +273,7 @@ def run_property(res, prop, tier, seed, replay, prop_files):
     ob = obligations_or_violation(res, prop_files)
     wd = workdir(prop + "_perf")
     rng = random.Random(seed + 13)
-    n = {"quick": 400, "thorough": 12000}[tier]
+    n = tier_size(tier, 400, 12000)
     if replay and json.load(open(replay)).get("component") == "perf":
         scs = [json.load(open(replay))["scenario"]]
     else:
